@@ -3,6 +3,7 @@ package c10
 import (
 	"context"
 	"fmt"
+	"sort"
 	"strings"
 
 	"github.com/cloudwego/eino/compose"
@@ -11,9 +12,40 @@ import (
 	"verifharness/internal/mon"
 )
 
-// failureRun: a node body or a branch condition (preferably one on START) is made to fail. Every
-// handler must still see exactly one start and exactly one end-or-error per execution unit that
-// started — in particular the graph itself: one start, one error.
+// bodyFaults: the ways a node body is made to fail. The panicking ones leave the body by unwinding
+// through the framework's callback wrapper: the unit still has to end (OnError) for its handlers.
+var bodyFaults = []gspec.Fault{gspec.FailSentinel, gspec.FailCustom, gspec.PanicString, gspec.PanicError, gspec.PanicNilDeref, gspec.PanicString, gspec.PanicError, gspec.PanicNilDeref}
+
+func faultClass(f gspec.Fault) string {
+	switch f {
+	case gspec.PanicString, gspec.PanicError, gspec.PanicNilDeref:
+		return "panic"
+	}
+	return "error"
+}
+
+func faultName(f gspec.Fault) string {
+	switch f {
+	case gspec.FailSentinel:
+		return "error-sentinel"
+	case gspec.FailCustom:
+		return "error-custom"
+	case gspec.PanicString:
+		return "panic-string"
+	case gspec.PanicError:
+		return "panic-error"
+	case gspec.PanicNilDeref:
+		return "panic-nil-deref"
+	}
+	return fmt.Sprint(int(f))
+}
+
+// failureRun: a node body (returning an error or panicking, three panic flavours) or a branch
+// condition (preferably one on START) is made to fail, in one of the four paradigms, under the global
+// handler, two undesignated handlers and handlers designated to the failing node, to a nested graph
+// around it and to some other unit. Every handler must see exactly one start and exactly one
+// end-or-error per execution unit that started — the failing unit and the graph itself included — and
+// a designated handler only its own units.
 func failureRun(ctx context.Context, rep *mon.Reporter, rng *mon.Rand, spec *gspec.GraphSpec, r compose.Runnable[gspec.V, gspec.V], in gspec.V, ref *gspec.RefResult) {
 	var victim, kind string
 	var startBranches []string
@@ -23,9 +55,9 @@ func failureRun(ctx context.Context, rep *mon.Reporter, rng *mon.Rand, spec *gsp
 		}
 	}
 	switch {
-	case len(startBranches) > 0 && rng.Prob(0.6):
+	case len(startBranches) > 0 && rng.Prob(0.4):
 		victim, kind = startBranches[rng.Intn(len(startBranches))], "start-branch-condition"
-	case len(spec.Branches) > 0 && rng.Prob(0.3):
+	case len(spec.Branches) > 0 && rng.Prob(0.25):
 		victim, kind = spec.Branches[rng.Intn(len(spec.Branches))].ID, "branch-condition"
 	case len(ref.Execs) > 0:
 		victim, kind = ref.Execs[rng.Intn(len(ref.Execs))].Node, "node-body"
@@ -33,17 +65,44 @@ func failureRun(ctx context.Context, rep *mon.Reporter, rng *mon.Rand, spec *gsp
 		return
 	}
 	fault := gspec.FailSentinel
-	if kind == "node-body" && rng.Bool() {
-		fault = gspec.PanicString
+	if kind == "node-body" {
+		fault = bodyFaults[rng.Intn(len(bodyFaults))]
 	}
 	faults := map[string]gspec.Fault{victim: fault}
 	fref := gspec.EvalGraph(spec, in, &gspec.RefEnv{Faults: faults})
 	if fref.Err != "nodefail" {
 		return // the failing branch is never evaluated on this input
 	}
+	var us []unit
+	units(spec, nil, &us)
+	var victimPath []string
+	for _, u := range us {
+		if kind == "node-body" && u.name == victim {
+			victimPath = u.path
+		}
+	}
+	// ---- handlers
 	rec := &recorder{}
-	hs := []hspec{{ID: "U0", Mode: readAll}, {ID: "U1", Mode: closeAtOnce}}
-	opts := []compose.Option{compose.WithCallbacks(newHandler("U0", rec, readAll)), compose.WithCallbacks(newHandler("U1", rec, closeAtOnce))}
+	hs := []hspec{{ID: "U0", Mode: readAll, Opt: 0}, {ID: "U1", Mode: closeAtOnce, Opt: 1}}
+	if victimPath != nil {
+		hs = append(hs, hspec{ID: "D@victim", Path: victimPath, Mode: readMode(rng.Intn(3)), Opt: 2})
+		if len(victimPath) > 1 && rng.Bool() {
+			// ... and one designated to a nested graph around the failing node (it applies to everything inside)
+			hs = append(hs, hspec{ID: "D@around", Path: victimPath[:1+rng.Intn(len(victimPath)-1)], Mode: readMode(rng.Intn(3)), Opt: 3})
+		}
+	}
+	if len(us) > 0 && rng.Bool() {
+		u := us[rng.Intn(len(us))]
+		hs = append(hs, hspec{ID: "D@any", Path: u.path, Mode: readMode(rng.Intn(3)), Opt: 4})
+	}
+	var opts []compose.Option
+	for _, h := range hs {
+		o := compose.WithCallbacks(newHandler(h.ID, rec, h.Mode))
+		if h.Path != nil {
+			o = o.DesignateNodeWithPath(compose.NewNodePath(h.Path...))
+		}
+		opts = append(opts, o)
+	}
 	para := []string{"I", "S", "C", "T"}[rng.Intn(4)]
 	ctl := gspec.NewCtl("r")
 	ctl.Faults = faults
@@ -51,7 +110,8 @@ func failureRun(ctx context.Context, rep *mon.Reporter, rng *mon.Rand, spec *gsp
 	out, wres, dump := gspec.CallGuarded(cctx, r, para, in, rng.Uint64(), -1, opts...)
 	rep.AddEvaluations(1)
 	rep.Count("failure_runs", 1)
-	wit := map[string]any{"spec": spec, "input": in, "failing": victim, "kind": kind, "paradigm": para, "handlers": hs}
+	rep.Count("failure_runs_"+kind+"_"+faultClass(fault), 1)
+	wit := map[string]any{"spec": spec, "input": in, "failing": victim, "kind": kind, "fault": faultName(fault), "paradigm": para, "handlers": hs}
 	if wres == mon.Stuck {
 		where, detail := gspec.StuckSignature(dump)
 		rep.Violation(ID+"/failure/hang/"+where, detail, wit)
@@ -61,7 +121,10 @@ func failureRun(ctx context.Context, rep *mon.Reporter, rng *mon.Rand, spec *gsp
 		rep.Inconclusive("watchdog")
 		return
 	}
-	mon.Settle(3, 800) // nodes that were still running when the failing run returned finish now
+	if _, ok := mon.Settle(3, 800); !ok { // nodes that were still running when the failing run returned finish now
+		rep.Count("failure_runs_not_settled_not_judged", 1)
+		return
+	}
 	rec.wg.Wait()
 	if !out.Failed() {
 		rep.Count("failure_runs_that_succeeded_not_judged", 1) // whether the failure must surface is C13's business
@@ -74,10 +137,22 @@ func failureRun(ctx context.Context, rep *mon.Reporter, rng *mon.Rand, spec *gsp
 	for _, e := range evs {
 		fmt.Fprintf(&b, "  %d %s %s name=%s comp=%s stream=%v\n", e.seq, e.handler, e.timing, e.name, e.comp, e.stream)
 	}
-	for _, h := range []string{"GLOBAL", "U0", "U1"} {
+	head := fmt.Sprintf("failing %s %s (%s), paradigm %s, run error: %v\nhandlers: %+v\n", kind, victim, faultName(fault), para, out.Err, hs)
+	sigTail := kind + "/" + faultClass(fault)
+	// where a handler applies: names of the units below its designated path
+	below := func(p []string) map[string]bool {
+		m := map[string]bool{}
+		for _, u := range us {
+			if len(u.path) >= len(p) && related(u.path, p) {
+				m[u.name] = true
+			}
+		}
+		return m
+	}
+	for _, h := range append([]hspec{{ID: "GLOBAL"}}, hs...) {
 		starts, ends, errs := map[string]int{}, map[string]int{}, map[string]int{}
 		for _, e := range evs {
-			if e.handler != h || e.comp == "Passthrough" {
+			if e.handler != h.ID || e.comp == "Passthrough" {
 				continue
 			}
 			switch e.timing {
@@ -89,22 +164,65 @@ func failureRun(ctx context.Context, rep *mon.Reporter, rng *mon.Rand, spec *gsp
 				ends[e.name]++
 			}
 		}
-		if starts["TOP"] != 1 || ends["TOP"]+errs["TOP"] != 1 {
-			rep.Violation(ID+"/failure/graph-level/"+kind, fmt.Sprintf("handler %s: the failing graph run fired %d start, %d end, %d error callbacks for the graph itself (expected 1 start and 1 end-or-error)\nfailing %s %s, paradigm %s, run error: %v\n%s", h, starts["TOP"], ends["TOP"], errs["TOP"], kind, victim, para, out.Err, b.String()), wit)
-			return
-		}
-		for n, s := range starts {
-			if n == "TOP" {
-				continue
+		names := map[string]bool{}
+		for _, m := range []map[string]int{starts, ends, errs} {
+			for n := range m {
+				names[n] = true
 			}
-			// a unit that started ends exactly once (after the process settled); nested graph units
-			// whose run was abandoned by the failing parent are exempt from the "ended" half
-			if ends[n]+errs[n] > s {
-				rep.Violation(ID+"/failure/more-ends-than-starts/"+kind, fmt.Sprintf("handler %s, unit %s: %d start but %d end and %d error callbacks\n%s", h, n, s, ends[n], errs[n], b.String()), wit)
+		}
+		sorted := make([]string, 0, len(names))
+		for n := range names {
+			sorted = append(sorted, n)
+		}
+		sort.Strings(sorted)
+		if h.Path == nil {
+			if starts["TOP"] != 1 || ends["TOP"]+errs["TOP"] != 1 {
+				rep.Violation(ID+"/failure/graph-level/"+kind, fmt.Sprintf("handler %s: the failing graph run fired %d start, %d end, %d error callbacks for the graph itself (expected 1 start and 1 end-or-error)\n%s%s", h.ID, starts["TOP"], ends["TOP"], errs["TOP"], head, b.String()), wit)
 				return
 			}
+		} else {
+			app := below(h.Path)
+			for _, n := range sorted {
+				if !app[n] {
+					rep.Violation(ID+"/failure/designated-handler-fired-for-another-unit/"+sigTail, fmt.Sprintf("handler %s designated to %v fired for unit %s\n%s%s", h.ID, h.Path, n, head, b.String()), wit)
+					return
+				}
+			}
+		}
+		for _, n := range sorted {
+			s := starts[n]
+			who := "other-unit"
+			if n == victim {
+				who = "failing-unit"
+			} else if n == "TOP" {
+				who = "graph"
+			}
+			// a unit that started ends exactly once (the process has settled: nothing is running any more)
+			if ends[n]+errs[n] > s {
+				rep.Violation(ID+"/failure/more-ends-than-starts/"+sigTail+"/"+who, fmt.Sprintf("handler %s, unit %s: %d start but %d end and %d error callbacks\n%s%s", h.ID, n, s, ends[n], errs[n], head, b.String()), wit)
+				return
+			}
+			if ends[n]+errs[n] < s {
+				rep.Violation(ID+"/failure/start-without-end/"+sigTail+"/"+who, fmt.Sprintf("handler %s, unit %s: %d start but only %d end and %d error callbacks: the unit started and never ended for this handler\n%s%s", h.ID, n, s, ends[n], errs[n], head, b.String()), wit)
+				return
+			}
+			rep.Count("failure_handler_unit_pairs_checked", 1)
+		}
+		// a panicking body fails at call time: the failing node ran exactly once (its first execution fails the
+		// run) for every handler that applies to it. (A body that returns an error may deliver it as an item
+		// of its output stream, which surfaces later: the node may have run several times by then.)
+		if victimPath != nil && (h.Path == nil || related(h.Path, victimPath) && len(h.Path) <= len(victimPath)) {
+			if (faultClass(fault) == "panic" && starts[victim] != 1) || starts[victim] < 1 {
+				cl := "failing-unit-count"
+				if h.Path != nil {
+					cl = "designated-handler-count"
+				}
+				rep.Violation(ID+"/failure/"+cl+"/"+sigTail, fmt.Sprintf("handler %s: %d start callbacks for the failing node %s (expected 1)\n%s%s", h.ID, starts[victim], victim, head, b.String()), wit)
+				return
+			}
+			rep.Count("failure_victim_checks", 1)
 		}
 		rep.Count("failure_handler_checks", 1)
 	}
-	rep.NonTrivial(fmt.Sprintf("failure|%s|%s|%s|%s", spec.Digest(), victim, kind, para))
+	rep.NonTrivial(fmt.Sprintf("failure|%s|%s|%s|%s|%s", spec.Digest(), victim, kind, faultName(fault), para))
 }
